@@ -204,3 +204,9 @@ def run(tier, rep):
                         "the builder model is checked for <= 4 tokens and <= 5 events"]
     if with_err < 100 or multibyte < 100:
         raise ToolError("vacuity: too few erroneous or multi-byte inputs")
+    # ---- the lexer against Lexer.tla: token kinds and byte ranges of every text of the bound and of whole files
+    import lexercheck
+    lst = lexercheck.run(tier, rep, [(c["name"], open(c["src"]).read()) for c in corpus.single_file_cases()])
+    rep.coverage["lexer_specification"] = lst
+    rep.coverage["states"] += lst["states"]
+    rep.coverage["traces_validated_against_impl"] += lst["texts"]
